@@ -27,7 +27,7 @@ func c09TreeGen(r *verifh.Rng) []verifh.Section {
 			}
 			return r.PickS(":x", ":y", ":")
 		}
-		return r.PickS("a", "b", "c", "ab")
+		return r.PickS("a", "b", "c", "ab", "a", "b", "A", "Ab", "é")
 	}
 	for i := 0; i < n; i++ {
 		mode := 0
